@@ -56,7 +56,7 @@ CONTRACTS = {
     ('cnfgen/formula/variables.py', 'ColorMap.__call__'): {
         'assumed': 'group call contract (C11): col(v, c) is the identifier of the pair (v, c), a variable of the formula',
         'params': {}, 'returns': 'int',
-        'requires': ['len(index) == 2', '1 <= index[0] and index[0] <= self.n', '1 <= index[1] and index[1] <= self.m'],
+        'supports': ['len(index) == 2'], 'requires': ['1 <= index[0] and index[0] <= self.n', '1 <= index[1] and index[1] <= self.m'],
         'ensures': ['result == mvar(self.gid, index[0], index[1])', 'result >= 1'],
     },
     (F_, 'FormulaK.add_clause'): {
